@@ -159,6 +159,13 @@ func init() {
 		c18ClosureAssigns(s, e, auth, "WithUnauthorizedCallback", "authWithCallbackAssigns")
 		c18ClosureAssigns(s, e, srv, "WithUnsignedCallback", "withUnsignedCallbackCalls")
 
+		c18Effects(s, e, c18EffSpec{rel: cry, fn: "cryptionResponseWriter.flush", lean: "flushEffects", depth: 0,
+			params: "(empty encryptErr writeErr shortWrite : Bool)",
+			conds: map[string]string{"w.buf.Len() == 0": "empty", "err != nil": "encryptErr",
+				"io.WriteString: err != nil": "writeErr", "io.WriteString: n < len(body)": "shortWrite"},
+			effects: map[string]string{"codec.EcbEncrypt": "", "w.WriteHeader": "", "io.WriteString": "", "base64.StdEncoding.EncodeToString": ""},
+			skip:    map[string]bool{"logc.Errorf": true}})
+
 		// ---- round 5c: ParseToken's retry structure as a TYPED call list (symbolic execution: which secret each call gets)
 		c18ParseTokenCalls(s, e, tokp, "TokenParser.ParseToken", "parseTokenCalls")
 
@@ -925,6 +932,7 @@ func c18Effects(s *source, e *emitter, sp c18EffSpec) {
 		}
 		return "", false, false
 	}
+	qualified := map[*ast.IfStmt]string{}
 	var trans func(list []ast.Stmt) string
 	one := func(x ast.Expr, st ast.Stmt, prefix string, rest []ast.Stmt) string {
 		txt, isEff, isSkip := callEffect(x, prefix)
@@ -960,12 +968,32 @@ func c18Effects(s *source, e *emitter, sp c18EffSpec) {
 			return trans(append(append([]ast.Stmt{}, x.List...), rest...))
 		case *ast.IfStmt:
 			if x.Init != nil {
-				// the init statement runs first, then the condition is consulted
+				// the init statement runs first, then the condition is consulted; a condition about the init's own call may
+				// be named "<callee>: <condition>" in the table (several `err != nil` in one function)
 				cp := *x
 				cp.Init = nil
+				if as, ok := x.Init.(*ast.AssignStmt); ok && len(as.Rhs) == 1 {
+					if call, ok := as.Rhs[0].(*ast.CallExpr); ok {
+						if c, ok := sp.conds[s.src(call.Fun)+": "+s.src(x.Cond)]; ok {
+							qualified[&cp] = c
+						}
+					}
+				}
+				if el, ok := x.Else.(*ast.IfStmt); ok && el.Init == nil {
+					if as, ok := x.Init.(*ast.AssignStmt); ok && len(as.Rhs) == 1 {
+						if call, ok := as.Rhs[0].(*ast.CallExpr); ok {
+							if c, ok := sp.conds[s.src(call.Fun)+": "+s.src(el.Cond)]; ok {
+								qualified[el] = c
+							}
+						}
+					}
+				}
 				return trans(append([]ast.Stmt{x.Init, &cp}, rest...))
 			}
-			c, ok := sp.conds[s.src(x.Cond)]
+			c, ok := qualified[x]
+			if !ok {
+				c, ok = sp.conds[s.src(x.Cond)]
+			}
 			if !ok {
 				return fail(st, "condition not in the table")
 			}
